@@ -63,10 +63,20 @@ Definition check_order : P (list Z) :=
             else true in
   ret (code_if j1 1 ++ code_if j2 2 ++ code_if j3 3)%list.
 
+(* 2 BIG : n step nrepeat | count firstdup firstdiff err terminated
+   a run too large to ship; the harness compared the emission sequence with its closed form.
+   What the theorems say about it (C14_order_nodup, _only_with_history, _complete on a graph in
+   which every id 1..n has a history): exactly n ids, none twice, no error. *)
+Definition check_big : P (list Z) :=
+  n <- pint ;; step <- pint ;; nrep <- pint ;;
+  count <- pint ;; firstdup <- pint ;; firstdiff <- pint ;; err <- pint ;; term <- pbool ;;
+  let ok := term && (count =? n) && (firstdup =? 0) && (firstdiff =? -1) && (err =? 0) in
+  ret (code_if ok 1 ++ code_if ok 2)%list.
+
 Definition check_case (t : toks) : list Z :=
   match t with
   | tag :: rest =>
-      let p := if tag =? 2 then check_order else pfail in   (* tag 1 arrives zigzag-encoded as 2 *)
+      let p := if tag =? 2 then check_order else if tag =? 4 then check_big else pfail in   (* tags 1, 2 arrive zigzag-encoded as 2, 4 *)
       match parse_all p rest with Some codes => codes | None => [0] end
   | [] => [0]
   end.
